@@ -3,7 +3,8 @@
 import json, subprocess, sys, tempfile, os, xml.etree.ElementTree as ET
 base = json.load(open("/root/.vp/BASELINE.json"))
 out = tempfile.mktemp(suffix=".xml", dir="/var/tmp")
-cmd = base["cmd"].replace("<file>", out)
+root = sys.argv[1] if len(sys.argv) > 1 else "/repo"  # a scratch worktree can be given for seeded-change intake
+cmd = base["cmd"].replace("<file>", out).replace("cd /repo", f"cd {root}")
 p = subprocess.run(cmd, shell=True, capture_output=True, text=True)
 passed = set()
 for tc in ET.parse(out).getroot().iter("testcase"):
